@@ -385,7 +385,7 @@ Record proc := mkP { p_h : nat; p_pid : nat; p_cb : bool }.
 Inductive event :=
 | ESpawn (h : nat) (r : sres)
 | EWait (h : nat) (a : wans)         (* an answer consumed by waitpid(pid, WNOHANG) *)
-| EReap (h : nat) (status : Z)       (* process->status = status; moved to pending *)
+| EReap (h : nat) (status : Z) (cb : bool) (* process->status = status; moved to pending; cb: exit_cb != NULL *)
 | EStop (h : nat)                    (* uv__handle_stop *)
 | EExit (h : nat) (es ts : Z)        (* exit_cb(process, es, ts) *)
 | EShort                             (* oracle exhausted inside a scan *)
@@ -410,7 +410,7 @@ Fixpoint collect (q : list proc) (o : list wans)
       | Some WOther => (q, [], [EWait (p_h p) WOther; EAbort], o1, true)
       | Some (WPid st) =>
           let '(keep, pend, ev, o2, ab) := collect rest o1 in
-          (keep, (p, st) :: pend, EWait (p_h p) (WPid st) :: EReap (p_h p) st :: ev, o2, ab)
+          (keep, (p, st) :: pend, EWait (p_h p) (WPid st) :: EReap (p_h p) st (p_cb p) :: ev, o2, ab)
       end
   end.
 
